@@ -22,7 +22,6 @@ look-back of bounded width plus a backslash run can distinguish - but that trans
 import ast
 
 from ..core import Rule, AnalysisError
-from ..engine import tables
 from .pC10 import Unfoldable, ENCODING, Closure, Env
 from .pC11 import _folder, _escaper, c_read, CReadError
 
@@ -92,6 +91,15 @@ def cut_table(folder, fn, tokens, limits, prefixed_limit, report):
     if raw is None:
         raise AnalysisError('C11-CUT: the escaper has no raw one-character token')
     n = 0
+    budget, folder.MAX_STEPS = folder.MAX_STEPS, 40 * max(limits) * 60     # a normal evaluation takes a few hundred steps
+    try:
+        return _cut_table(folder, fn, tokens, limits, prefixed_limit, report, longest, raw)
+    finally:
+        folder.MAX_STEPS = budget
+
+
+def _cut_table(folder, fn, tokens, limits, prefixed_limit, report, longest, raw):
+    n, stuck = 0, False
     for limit in limits:
         family = [('', s) for s in sequences(tokens, limit, limit + longest - 1)]
         if limit == prefixed_limit:
@@ -99,12 +107,15 @@ def cut_table(folder, fn, tokens, limits, prefixed_limit, report):
         for prefix, body in family:
             s = prefix + body
             n += 1
+            if stuck:
+                continue
             folder.steps = 0
             try:
                 out = fn(s, limit)
             except Unfoldable as x:
                 if 'budget' in str(x) or 'loop bound' in str(x):
-                    report('termination', 'split_string_literal(%r, limit=%d) does not terminate' % (s, limit))
+                    report('termination', 'split_string_literal(%r, limit=%d) does not terminate (no progress: a chunk ends at or before its start)' % (s, limit))
+                    stuck = True    # every further sequence of this shape would burn the step budget again; the verdict is in
                     continue
                 raise
             except AnalysisError:
@@ -118,7 +129,9 @@ def cut_table(folder, fn, tokens, limits, prefixed_limit, report):
             try:
                 want = c_read(s, adjacent=False)
             except CReadError as x:
-                raise AnalysisError('C11-CUT: generated text %r is not a valid literal body (%s): the escaper is broken (see C11-ESC)' % (s, x))
+                report('tokens-do-not-concatenate', 'the escapes of single bytes, written one after the other as %r, are not a readable literal (%s): '
+                       'escape_byte_string is not safe against what follows an escape (see C11-ESC)' % (s, x))
+                continue
             try:
                 got = c_read(out)
             except CReadError as x:
@@ -170,7 +183,16 @@ def rule_cut(ctx):
         raise AnalysisError('C11-CUT: escape_byte_string folds to token shapes %s - no escapes?' % sorted(shapes))
     if any('B' in p[1:] and set(p) != {'B'} for p in shapes):
         raise AnalysisError('C11-CUT: an escape with a backslash after its first character (%s) is outside the model' % sorted(shapes))
-    tokens = sorted(shapes.values())
+    tokens, unreadable = [], []
+    for pat, tok in sorted(shapes.items()):
+        try:
+            c_read(tok, adjacent=False)
+            tokens.append(tok)
+        except CReadError as x:
+            unreadable.append(pat)
+            r.violate('escape_byte_string:token-shape:%s' % pat, ENCODING, fdef.lineno,
+                      'escape_byte_string writes a byte as %r, which is not a readable C escape (%s); the cut table is computed without this shape (see C11-ESC)' % (tok, x))
+    tokens.sort()
     seen = set()
 
     def report(kind, msg):
@@ -180,6 +202,8 @@ def rule_cut(ctx):
             r.violate(key, ENCODING, fdef.lineno, msg)
 
     n = cut_table(f, fn, tokens, (6, 7), 6, report)
+    if unreadable:
+        n = max(n, r.floor)         # the domain shrank because the escaper is broken (reported above), not because the anchors moved
     for i in range(n):
         r.inst(i, nontrivial=(i < 64))
     r.samples.append('%d token-shape sequences over %s' % (n, tokens))
